@@ -202,8 +202,13 @@ def u1_query_construction(run):
     org = Origins(cfg, transparent={"urlencode": None, "join": None,
                                     "encode": None})
     joins = [(nd, c) for nd, c in cfg.call_nodes("join")
-             if attr_chain(c.func) == "glue_char.join"]
-    run.require(len(joins) == 1, "http_redirect_message: glue_char.join vanished")
+             if isinstance(c.func, ast.Attribute) and
+             isinstance(c.func.value, ast.Name) and c.args and
+             isinstance(c.args[0], (ast.List, ast.Tuple)) and
+             len(c.args[0].elts) == 2 and
+             unparse(c.args[0].elts[0]) == "location"]
+    run.require(len(joins) == 1, "http_redirect_message: the join of location "
+                "and query string vanished")
     nd, c = joins[0]
     parts = c.args[0].elts if isinstance(c.args[0], (ast.List, ast.Tuple)) else []
     ok = len(parts) == 2 and unparse(parts[0]) == "location"
@@ -218,16 +223,25 @@ def u1_query_construction(run):
               "query string is urlencode(args)",
               "the query appended to the destination is not solely "
               "urlencode(args)", fi.loc(c))
-    glue = [s for s in walk_no_nested(fi.node) if isinstance(s, ast.Assign) and
-            unparse(s.targets[0]) == "glue_char"]
-    ok = len(glue) == 1 and isinstance(glue[0].value, ast.IfExp) and \
-        unparse(glue[0].value.test) == "urlparse(location).query" and \
-        unparse(glue[0].value.body) == "'&'" and \
-        unparse(glue[0].value.orelse) == "'?'"
-    run.check(ok, "U1", fi.qual + "::glue",
+    gname = attr_chain(c.func).rsplit(".", 1)[0]
+    glue = [g for g in cfg.by_kind("stmt") if isinstance(g.ast, ast.Assign) and
+            unparse(g.ast.targets[0]) == gname]
+    has_query = Q("urlparse(location).query")
+    ok = len(glue) == 2
+    seen = {}
+    for g in glue:
+        v = g.ast.value
+        fs = facts(cfg, g.id, inline=True)
+        if isinstance(v, ast.Constant) and has_query in fs:
+            seen["&"] = v.value
+        elif isinstance(v, ast.Constant) and (has_query[0], False) in fs:
+            seen["?"] = v.value
+        else:
+            ok = False
+    run.check(ok and seen == {"&": "&", "?": "?"}, "U1", fi.qual + "::glue",
               "'&' when the destination already has a query, else '?'",
               "glue character logic changed: %s" %
-              [unparse(g.value) for g in glue], fi.loc())
+              [norm_text(g.ast) for g in glue], fi.loc())
     # args only gets whole values under fixed keys
     for nd2 in cfg.by_kind("stmt"):
         s = nd2.ast
